@@ -1,0 +1,46 @@
+//go:build verif
+
+package httpserver
+
+import "github.com/tmpim/casket"
+
+// Test-only exports for the /verif harness (property C15). Add-only; compiled
+// only with the "verif" build tag. Thin wrappers around the pure stages of the
+// tls parsing callback (activateHTTPS) and accessors for the context's site list.
+
+// VerifC15MarkQualified exposes markQualifiedForAutoHTTPS.
+func VerifC15MarkQualified(configs []*SiteConfig) { markQualifiedForAutoHTTPS(configs) }
+
+// VerifC15EnableAutoHTTPS exposes enableAutoHTTPS.
+func VerifC15EnableAutoHTTPS(configs []*SiteConfig, loadCertificates bool) error {
+	return enableAutoHTTPS(configs, loadCertificates)
+}
+
+// VerifC15MakePlaintextRedirects exposes makePlaintextRedirects.
+func VerifC15MakePlaintextRedirects(all []*SiteConfig) []*SiteConfig {
+	return makePlaintextRedirects(all)
+}
+
+// VerifC15HostHasOtherPort exposes hostHasOtherPort.
+func VerifC15HostHasOtherPort(all []*SiteConfig, i int, port string) bool {
+	return hostHasOtherPort(all, i, port)
+}
+
+// VerifC15RedirPlaintextHost exposes redirPlaintextHost.
+func VerifC15RedirPlaintextHost(cfg *SiteConfig) *SiteConfig { return redirPlaintextHost(cfg) }
+
+// VerifC15SiteConfigs returns the site list of an http server-type context.
+func VerifC15SiteConfigs(cctx casket.Context) []*SiteConfig { return cctx.(*httpContext).siteConfigs }
+
+// VerifC15SetSiteConfigs replaces the site list of an http server-type context
+// (what activateHTTPS does with the result of makePlaintextRedirects).
+func VerifC15SetSiteConfigs(cctx casket.Context, cfgs []*SiteConfig) {
+	cctx.(*httpContext).siteConfigs = cfgs
+}
+
+// VerifC15ResetContext empties the context so that it can be reused for another Casketfile.
+func VerifC15ResetContext(cctx casket.Context) {
+	ctx := cctx.(*httpContext)
+	ctx.siteConfigs = nil
+	ctx.keysToSiteConfigs = make(map[string]*SiteConfig)
+}
